@@ -88,7 +88,7 @@ def search(ck, tier, seed):
                                                    "box %s %s: input %r -> %s" % (box, dtype, val, r[1:] if r[0] == "err" else r[1][0].tolist()), case)
     # ---- unconstrained splines: values exactly on a tail bound of any magnitude, any feature position / batch size
     for fam in sh.FAMILIES:
-        for B in (0.5, 1.0, 3.0, 8.0, 31.0, 32.0, 64.0, 1e3, 1e6):
+        for B in (0.1, 0.5, 0.7, 1.0, 1.1, 3.0, 3.3, 8.0, 31.0, 32.0, 64.0, 1e3, 1e6):     # 0.1 / 1.1 round up in float32, 0.7 / 3.3 down
             for dtype in (torch.float64, torch.float32):
                 K = 4
                 g = tgen(seed, "c17-tails", fam, B)
